@@ -66,7 +66,7 @@ func NewMethodEvaluator(
 	)
 	p.SetLastResolvedMethodT(nil)
 
-	if ctx.IsCheckRound() {
+	if ctx.IsCheckRound() && !ctx.IsLookahead {
 		key := evaluatedObjectT.GetFrame() + evaluatedObjectT.GetObjectClass() + methodIdentifierT.ToString()
 		point := p.FileName + ":" + strconv.Itoa(p.ErrorRow)
 
